@@ -275,5 +275,31 @@ fn heap_vec_capacity_h<T: 'static>(op: usize, typed: bool) {
     kani::cover!(true, "REACHED");
 }
 
+/// Raw-parts round trip of a REAL heap-backed vector (what `HeapMem` answers by itself is only seen here): nothing
+/// is deallocated, the parts report the true length / capacity / pointer, the rebuilt vector owns the same block
+fn heap_vec_rawparts_h<T: 'static>() {
+    am_reset();
+    let cap: usize = kani::any();
+    let len: usize = kani::any();
+    kani::assume(cap <= (1usize << 24) && len <= cap);
+    let mut v: crate::AnyVec<dyn crate::traits::None, Heap> = crate::AnyVec::with_capacity::<T>(cap);
+    unsafe { v.set_len(len) };
+    let p0 = v.raw.mem.as_ptr() as usize;
+    let calls = am().allocs + am().reallocs + am().deallocs;
+    let live = am().live;
+    let parts = v.into_raw_parts();
+    kani::assert(am().allocs + am().reallocs + am().deallocs == calls && am().live == live, "AnyVec::into_raw_parts (heap) allocates and deallocates nothing");
+    kani::assert(parts.len == len && parts.capacity == cap && parts.element_layout == Layout::new::<T>() && parts.mem_handle.as_ptr() as usize == p0,
+        "AnyVec::into_raw_parts (heap) reports the true length, capacity, layout and storage pointer");
+    let mut v2: crate::AnyVec<dyn crate::traits::None, Heap> = unsafe { crate::AnyVec::from_raw_parts(parts) };
+    kani::assert(v2.len() == len && v2.capacity() == cap && v2.raw.mem.as_ptr() as usize == p0, "from_raw_parts (heap) rebuilds the same vector over the same block");
+    kani::assert(am().allocs + am().reallocs + am().deallocs == calls, "the round trip never touches the allocator");
+    check_state::<T>(&v2.raw.mem, cap);
+    unsafe { v2.set_len(0) };
+    core::mem::forget(v2);
+    kani::cover!(len == 0 && cap > 0, "COV empty vector that owns a buffer");
+    kani::cover!(true, "REACHED");
+}
+
 include!("k1_heap.inst.rs");
 
